@@ -484,8 +484,9 @@ def c11(tier, rng, fam='C11'):
         out.append(b.q().done())
     # a caller that cancels with m responses unread
     for kind in ('bidi', 'ss'):
-        for m in range(0, nmax + 1):
-            for others, idle in ((0, 0), (2, 0), (1, 5000)):
+        # (well beyond any receive window somebody might add: 9, 12, 40 unread)
+        for m in list(range(0, nmax + 1)) + [9, 12, 40]:
+            for others, idle in ((0, 0), (2, 0), (1, 5000)) if m <= nmax else ((0, 0), (2, 0)):
                 # idle: the responses stay unread for a (virtual) while before the caller gives up
                 b = B(fam, '%s caller cancels with %d unread%s, %d bystanders' % (kind, m, ' after %d ms' % idle if idle else '', others), ser=True)
                 for o in range(others):
@@ -501,6 +502,27 @@ def c11(tier, rng, fam='C11'):
                 b.step('ucall', c=99, pay='probe', to=H, hp=[ret(pay='pong')])
                 b.step('adv', ms=H + 1)
                 out.append(b.q().done())
+    # many streams open at once on one connection (more than any cap on concurrent streams somebody might add), one more
+    # opened on top, then all handlers return early: the connection serves on
+    for n in ((101,) if tier == 'quick' else (101, 130, 300)):
+        b = B(fam, '%d streams open at once, handlers idle, one more, then all return' % n, ser=True)
+        for i in range(n):
+            b.step('sopen', c=100 + i, kind='bidi', hp=[], nw=(i % 25 != 24))
+        b.q()
+        for i in range(0, n, 10):
+            b.step('send', c=100 + i, pay='unread%d' % i, nw=True)
+        b.q()
+        b.step('sopen', c=99, kind='bidi', hp=[dict(o='echo')])
+        b.step('send', c=99, pay='ping').step('recv', c=99)
+        b.step('ucall', c=98, pay='probe', to=H, hp=[ret(pay='pong')])
+        for i in range(n):
+            b.step('hop', c=100 + i, h=ret(code=0), nw=(i % 25 != 24))
+        b.q()
+        for i in range(n):
+            b.step('recv', c=100 + i, nw=(i % 25 != 24))
+        b.step('close', c=99).step('recv', c=99)
+        b.step('adv', ms=H + 1)
+        out.append(b.q().done())
     out += lost_reset(fam, nmax)
     out += eager_caller_early_return(fam, tier)
     out += stuck_handler_with_deadline(fam)
